@@ -79,6 +79,10 @@ def gen_base(seed, tier="quick"):
                 if len(o) > 1:
                     o[1] = pool.pop()
     plan["post_values"] = [pool.pop() for _ in range(4)]
+    if driver == "tridonic":
+        z = plans.rng_for(seed, PROP + "-line-b")
+        if z.random() < 0.15:
+            plan["second_line"] = plans.gen_second_line(z)
     if hid:
         # the per-call keyword overrides the driver attribute - in both directions
         x = plans.rng_for(seed, PROP + "-kw")
@@ -637,6 +641,8 @@ def judge(rr, ctx):
         elif item[0] == "ok":
             _, unit, spec, v, res = item
             judge_response(V, drv, unit, cmds.mk_cmd(spec), ["value", v], res, False, all_values, serial)
+    for c_, d_, s_ in drvsim.judge_second_line(rr):
+        V(c_, d_, s_)
     if hid:
         for t_, path_, node_ in getattr(rr.dev, "unexpected_open_failures", [])[:1]:
             V("reconnect-attempt-wasted-on-stale-node", "at %d us the driver tried to open %s although its pattern matches "
